@@ -405,6 +405,62 @@ def find_witness(cond_term, lanes, budget=20000):
     return None
 
 
+def msb_split_unsat(ct, lanes):
+    """conditions over a single non-negative integer input that go through bit ladders (1 << findMSB(x)): case analysis on the position p of the
+    highest set bit, x = {symbolic low bits (p), 1, 0...}; every case inside the box must normalise to the constant false"""
+    ins = sorted({x for x in tm.walk(ct) if x.op == 'in'}, key=lambda t: t.id)
+    if len(ins) != 1:
+        return False
+    x = ins[0]
+    box = [l for l in lanes if l[0] is x]
+    if not box or box[0][1] == 'f' or box[0][2] < 0:
+        return False
+    lo, hi = box[0][2], box[0][3]
+    w = x.w
+    shapes = []
+    if lo == 0:
+        shapes.append(tm.zeros(w))
+    for p_ in range(hi.bit_length()):
+        if (1 << (p_ + 1)) - 1 < lo:
+            continue
+        parts = ([tm.slice_(x, 0, p_)] if p_ else []) + [tm.const(1, 1)] + ([tm.zeros(w - p_ - 1)] if w - p_ - 1 else [])
+        shapes.append(tm.concat(parts))
+    for sh in shapes:
+        r = tm.substitute(ct, {x: sh})
+        if not (r.op == 'const' and r.args[0] == 0):
+            return False
+    return True
+
+
+def msb_split_unsat_dnf(cond, lanes):
+    """every conjunct of the condition contains a group of literals over one single input that is unsatisfiable by the highest-set-bit case analysis
+    (conditions of several vector lanes merged into one trap block)"""
+    try:
+        conjs = expand_dnf(cond, limit=512)
+    except Exception:
+        return False
+    memo = {}
+    for conj in conjs:
+        groups = {}
+        for lit in conj:
+            ins = frozenset(x for x in tm.walk(lit) if x.op == 'in')
+            if len(ins) == 1:
+                groups.setdefault(next(iter(ins)), []).append(lit)
+        dead = False
+        for x, lits in groups.items():
+            t = tm.TRUE
+            for l in sorted(lits, key=lambda q: q.id):
+                t = tm.and_(t, l)
+            if t not in memo:
+                memo[t] = msb_split_unsat(t, lanes)
+            if memo[t]:
+                dead = True
+                break
+        if not dead:
+            return False
+    return True
+
+
 def judge_of(f, k):
     def judge(ctx):
         err = ctx.compile_error(k)
@@ -435,6 +491,9 @@ def judge_of(f, k):
                 res.append(R.ob(oid, kind, R.PROVED, 'the check cannot fail inside the documented domain (%s): condition %s' % (box_text(f), tm.show(ct, 4)[:160]), kernel=k.source()))
                 continue
             wit = find_witness(ct, lanes)
+            if wit is None and (msb_split_unsat(ct, lanes) or msb_split_unsat_dnf(cond, lanes)):
+                res.append(R.ob(oid, kind, R.PROVED, 'the check cannot fail inside the documented domain (%s): on every shape of the argument (position of its highest set bit fixed, lower bits symbolic) the condition normalises to false' % box_text(f), kernel=k.source()))
+                continue
             if wit is not None:
                 res.append(R.ob(oid, kind, R.REFUTED, 'undefined behaviour (%s) is executed for %s, inside the documented domain (%s); condition %s' % (kind.replace('_', ' '), ', '.join('%s = %s' % (a, b) for a, b in wit.items()), box_text(f), tm.show(ct, 4)[:200]),
                                 where=where, kernel=k.source()))
